@@ -314,7 +314,7 @@ class Engine:
             if self.choose(bad):
                 raise PyRaise(cls, node, what)
         else:
-            self.oblige(f"safe@{cls}", f"{what or cls}@L{getattr(node, 'lineno', 0)}", b_not(bad), node)
+            self.oblige(f"safe@{cls}", f"{what or cls}@{self.site(node)}", b_not(bad), node)
 
     # ----------------------------------------------------------------------------------
     # statements
@@ -495,6 +495,27 @@ class Engine:
             return k, self.contract.loops.get(k)
         c = self.registry.get(f"{fr.mod.dotted}:{fr.qual}")
         return k, (c.loops.get(k) if c is not None else None)
+
+    def site(self, node):
+        """line-independent name of a program point: ordinal of the AST node among the nodes of its kind in the enclosing
+        function (so that edits elsewhere in the file do not rename obligations)"""
+        if node is None:
+            return "#?"
+        fr = self.frame
+        fnode = fr.mod.functions.get(fr.qual)
+        if fnode is None:
+            return "#?"
+        cache = getattr(fnode, "_site_ordinals", None)
+        if cache is None:
+            cache, counters = {}, {}
+            for n in ast.walk(fnode):
+                if hasattr(n, "lineno"):
+                    kind = type(n).__name__
+                    counters[kind] = counters.get(kind, 0) + 1
+                    cache[id(n)] = f"{kind}{counters[kind]}"
+            fnode._site_ordinals = cache
+        tag = cache.get(id(node), "#?")
+        return tag if len(self.frames) <= 1 else f"{fr.qual}.{tag}"
 
     def static_loop_ordinal(self, fr, node):
         fnode = fr.mod.functions.get(fr.qual)
@@ -1429,7 +1450,7 @@ class Engine:
         for pn, pt in contract.params.items():
             if isinstance(pt, TList) and isinstance(env.get(pn), (CList, tuple)):
                 env[pn] = to_slist(env[pn], pt.t)
-        site = f"{fr.qual}@L{getattr(node, 'lineno', 0)}"
+        site = f"{fr.qual}@{self.site(node)}"
         arg_nodes = {}
         if node is not None and fnode is not None:
             pnames = [x.arg for x in fnode.args.args]
